@@ -4,7 +4,10 @@
 (* by a rule with the same statistic parameters / duplicated / reordered, X possibly duplicated ("erase"), and  *)
 (* every X -> Xm modification next to <= 2 rules with other statistic parameters ("fromstart").  For each shape *)
 (* TLC says whether the reload must be invisible (inv), whether copies of X are added (dup), the reuse relation *)
-(* of the statement (stmt) and what the greedy algorithm of the pinned code would do (greedy).                  *)
+(* of the statement (stmt) and what the greedy algorithm of the pinned code would do (greedy), and for every    *)
+(* load path whether the entry point's unchanged-detection ignores the reload (skip): the driver is free to     *)
+(* choose the entry point of the initial load and of the reload independently (paths are a parameter of each    *)
+(* Reload action of RuleReuse), a skipped reload never reaches the reuse algorithm.                             *)
 EXTENDS RuleReuse_MC
 OldErase == {s \in SeqsUpTo({"X", "S1", "S2", "N1", "N2"}, 3) : Count(s, "X") = 1}
 NewErase == {s \in SeqsUpTo({"X", "S1", "S2", "N1", "N2"}, 3) : Count(s, "X") \in {1, 2}}
@@ -13,7 +16,8 @@ NewMod   == {s \in SeqsUpTo({"Xm", "N1", "N2"}, 3) : Count(s, "Xm") = 1}
 Shapes   == {<<"erase", o, nw>> : o \in OldErase, nw \in NewErase} \cup {<<"fromstart", o, nw>> : o \in OldMod, nw \in NewMod}
 ShapeRec(s) == [mode |-> s[1], old |-> s[2], new |-> s[3],
                 inv |-> Unchanged(s[2], s[3], "X"), dup |-> Duplicated(s[2], s[3], "X"),
-                stmt |-> ReuseStatement(StatClass, s[2], s[3]), greedy |-> Match("greedy", s[2], s[3])]
+                stmt |-> ReuseStatement(StatClass, s[2], s[3]), greedy |-> Match("greedy", s[2], s[3]),
+                skip |-> [p \in AllPaths |-> Skipped(p, s[2], s[3])]]
 ShInit == /\ h \in {<<s>> : s \in Shapes}
           /\ P = << >> /\ Sh = << >> /\ n = 0 /\ ok = TRUE /\ kept = 0
 ShNext == UNCHANGED vars
